@@ -7,8 +7,8 @@ def consts(): return C7.consts()
 
 class C06(F.PropCheck):
     pid = 'C06'; gen_groups = ['RelayConsts']; prop_file = 'Properties_C06'
-    IN = {'CFG': 0, 'REG': 1, 'ITER': 2, 'SETV': 3, 'GRP': 4, 'BTN': 5, 'TICK': 6, 'TIME2': 7, 'CHCFG': 8, 'SENTRES': 9}
-    OUT = {0: 'GPIO', 5: 'UNKNOWN-EVENT', 10: 'VAL', 11: 'RES', 12: 'EXT', 13: 'DROP', 14: 'Q', 15: 'WOTH'}
+    IN = {'CFG': 0, 'REG': 1, 'ITER': 2, 'SETV': 3, 'GRP': 4, 'BTN': 5, 'TICK': 6, 'TIME2': 7, 'CHCFG': 8, 'SENTRES': 9, 'ADV': 10, 'BURST': 11}
+    OUT = {0: 'GPIO', 4: 'FUEL', 5: 'UNKNOWN-EVENT', 10: 'VAL', 11: 'RES', 12: 'EXT', 13: 'DROP', 14: 'Q', 15: 'WOTH'}
     quick_cases = 3000; thorough_cases = 80000
     trusted_extra = ['C06 driver harness/drv/c06.c on harness/include/c07_core.h: real proto/srpc/devconn, device connected by calling the connect callback, '
                      'registered with a REGISTER_DEVICE_RESULT frame and flushed; no timer ever fires: iterate, timer expiry (clock jump + '
@@ -95,7 +95,34 @@ class C06(F.PropCheck):
         n = rng.choice([1, 2, 3]); gp = rng.sample(C7.GPIOS, n)
         rel = [(gp[i], i, rng.choice([0, 0, 16, 2]), cd if rng.random() < 0.4 else 0) for i in range(n)]
         kind = rng.random()
+        if kind < 0.15:
+            # two or three relay timers of very different durations alive at once, the SDK timers running (ADV): each must be off, and reported,
+            # at its own d + tolerance
+            rel = [(g, ch, f, 0) for (g, ch, f, cf) in rel] if n > 1 else [(gp[0], 0, 0, 0), (C7.GPIOS[-1] if gp[0] != C7.GPIOS[-1] else C7.GPIOS[0], 1, 16, 0)]
+            m = len(rel)
+            evs = [C7.cfg_event(1, 1, 0, False, rel, [0] * 8, [], [0]), ('REG', [], b'')]
+            ds = [rng.choice([20000, 60000, 9000])] + [rng.choice([300, 500, 700, 1200]) for _ in range(m - 1)]
+            order = list(range(m)); rng.shuffle(order)
+            for i in order: evs += [('SETV', [i, 1, ds[i], 30 + i], b'')] + it3 + ([('ADV', [rng.choice([0, 20000])], b'')] if rng.random() < 0.3 else [])
+            for dshort in sorted(set(ds[1:])):
+                evs += [('ADV', [dshort * 1000 + 300000 if dshort == min(ds[1:]) else 600000], b'')] + it3
+            evs += [('ADV', [1500000], b'')] + it3
+            if rng.random() < 0.4: evs += [('ADV', [max(ds) * 1000], b'')] + it3 * 2
+            return F.Case(cid, evs, ['two-timers'])
         if kind < 0.3:
+            # a scene / "all on": 7..25 set-value frames for different channels in ONE receive callback on an 8-relay board, then iterates
+            gp8 = rng.sample(C7.GPIOS, 8)
+            rel = [(gp8[i], i, rng.choice([0, 0, 16]), 0) for i in range(8)]
+            evs = [C7.cfg_event(1, 1, 0, False, rel, [0] * 8, [], [0]), ('REG', [], b'')]
+            k = rng.choice([7, 8, 8, 12, 16, 25]); ints = []
+            chs = [j % 8 for j in range(k)]
+            if rng.random() < 0.5: rng.shuffle(chs)
+            for j, chn in enumerate(chs): ints += [chn, rng.choice([1, 1, 1, 0]), 0, 100 + j]
+            evs.append(('BURST', ints, b''))
+            evs += [('ITER', [], b'')] * (k + 6)
+            if rng.random() < 0.5: evs += [('SETV', [rng.randrange(8), rng.choice([0, 1]), 0, 9], b'')] + it3
+            return F.Case(cid, evs, ['burst'])
+        if kind < 0.45:
             # TCP back-pressure: espconn_sent refuses (INPROGRESS / MAXNUM) the frames of a relay command, once or several times in a row;
             # plain relays only (two small frames per request: the out-queue findings and the 500-byte send buffer stay out)
             rel = [(g, ch, f, 0) for (g, ch, f, cf) in rel]
@@ -107,7 +134,7 @@ class C06(F.PropCheck):
                 if rng.random() < 0.3: evs.append(('SETV', [rng.randrange(n), rng.choice([0, 1]), 0, 50], b''))
                 evs += [('ITER', [], b'')] * (k + 4)
             return F.Case(cid, evs, ['link-busy'])
-        if kind < 0.55:
+        if kind < 0.65:
             # a channel-config message that CHANGES the staircase time while the relay is on, then the old / new period passes
             rel = [(g, ch, f, cf) for (g, ch, f, cf) in rel]
             t2 = [0] * 8; i = rng.randrange(n)
@@ -122,7 +149,7 @@ class C06(F.PropCheck):
             for dt in (400000, max(t2[i], new) * 1000 + 300000, 3000000):
                 evs += [('TICK', [dt], b'')] + it3
             return F.Case(cid, evs, ['chcfg-on'])
-        if kind < 0.8:
+        if kind < 0.85:
             t2 = [0] * 8; i = rng.randrange(n); t2[i] = rng.choice([800, 2000, 5000])
             ty = rng.choice([c['IN_MONO'], c['IN_MONO'], c['IN_BI']]); fl = rng.choice([0, c['IN_FLAG_ON_PRESS']])
             inputs = [rng.choice([6, 7, 8]), ty, fl, gp[i], 255]
@@ -153,7 +180,9 @@ class C06(F.PropCheck):
         if status != 'ok': return ['implementation crashed (%s)' % status]
         cfg = C7.parse_cfg(case.evs[0][1]); rel = cfg['relays']; nrel = len(rel)
         if len(set(r[0] for r in rel)) != nrel or len(set(r[1] for r in rel)) != nrel: return []
-        if any(o[0] in ('UNKNOWN-EVENT', 'WOTH') for o in outs): return []
+        if any(o[0] in ('UNKNOWN-EVENT', 'WOTH', 'FUEL') for o in outs): return []
+        if any(o[0] == 'RESTART' for o in outs):
+            return ['RESTART the device restarted itself (srpc_iterate failed) although every frame it received was well-formed']
         c = consts(); LO = c['FLAG_LO_LEVEL']; CD = c['CHFLAG_COUNTDOWN']
         chidx = {r[1]: i for i, r in enumerate(rel)}; pinidx = {r[0]: i for i, r in enumerate(rel)}
         segs = []; cur = []
@@ -173,6 +202,7 @@ class C06(F.PropCheck):
         OP8 = 8 * C7.relay_op_us()
         time2 = list(cfg['time2']); timed = {}       # relay index -> (t_cmd, d_ms): "on for d" accepted and not cancelled since
         quiet = set()                                 # relays whose timer a config message cancelled (staircase -> plain switch): no timer until the next command
+        pendq = []                                    # requests received and not handled yet: one frame is handled per iterate, oldest first
         inputs = []; rest = cfg['rest']
         for j in range(rest[0] if rest else 0): inputs.append(tuple(rest[1 + 5 * j: 6 + 5 * j]))
         for o in segs[0] if segs else []:
@@ -193,10 +223,10 @@ class C06(F.PropCheck):
                     if clicked == i_ and level(i_) == 0:
                         v.append('STAIR-CLICK a click of the (reset-type) staircase button switched relay gpio %d (channel %d, staircase time %d ms) OFF; it must restart the period and leave it on' %
                                  (rel[i_][0], rel[i_][1], time2[rel[i_][1]]))
-                    if e[0] == 'TICK' and i_ in quiet:
+                    if e[0] in ('TICK', 'ADV') and i_ in quiet:
                         v.append('SPURIOUS relay gpio %d (channel %d) switched by itself at a timer tick although the config message made it a plain switch and cancelled its timer' % (rel[i_][0], rel[i_][1]))
                         quiet.discard(i_)
-                    if e[0] == 'TICK' and i_ in timed and level(i_) == 0 and o[1][0] - timed[i_][0] <= (timed[i_][1] - 1) * 1000:
+                    if e[0] in ('TICK', 'ADV') and i_ in timed and level(i_) == 0 and o[1][0] - timed[i_][0] <= (timed[i_][1] - 1) * 1000:
                         v.append('EARLY relay gpio %d switched back %d us after "on for %d ms" (channel %d)' % (rel[i_][0], o[1][0] - timed[i_][0], timed[i_][1], rel[i_][1]))
                         del timed[i_]
                     if registered: changed.add(rel[pinidx[o[1][1]]][1])
@@ -213,24 +243,29 @@ class C06(F.PropCheck):
                         if cc[1] == 0: quiet.add(i_)                                   # now a plain switch: nothing may switch it by itself
                         elif level(i_) == 1 and cc[1] < 2**31: timed[i_] = (tprev, cc[1])    # a staircase that is on: off after the new time
             if e[0] == 'BTN' and 0 <= e[1][0] < len(inputs) and inputs[e[1][0]][3] in pinidx: timed.pop(pinidx[inputs[e[1][0]][3]], None); quiet.discard(pinidx[inputs[e[1][0]][3]])
-            if e[0] in ('SETV', 'GRP') and (e[1][0] & 255) in chidx:
-                i_ = chidx[e[1][0] & 255]; timed.pop(i_, None); quiet.discard(i_)
-                if registered and e[1][1] == 1 and 0 < e[1][2] < 2**31 and time2[e[1][0] & 255] == 0: timed[i_] = (tprev, e[1][2])
-            if e[0] == 'TICK' and e[1][0] >= 0:
+            if e[0] == 'SETV': pendq.append((e[1][0], e[1][1], e[1][2], e[1][3]))
+            elif e[0] == 'GRP': pendq.append((e[1][0], e[1][1], e[1][2], 0))
+            elif e[0] == 'BURST': pendq += [tuple(e[1][4 * j: 4 * j + 4]) for j in range(len(e[1]) // 4)]
+            req = pendq.pop(0) if e[0] in ('SETV', 'GRP', 'BURST', 'ITER') and pendq else None      # the request this event's iterate handles
+            if req is not None and (req[0] & 255) in chidx:
+                i_ = chidx[req[0] & 255]; timed.pop(i_, None); quiet.discard(i_)
+                if registered and req[1] == 1 and 0 < req[2] < 2**31 and time2[req[0] & 255] == 0: timed[i_] = (tprev, req[2])
+            if e[0] in ('TICK', 'ADV') and e[1][0] >= 0:
                 # the countdown callback ran at tprev + dt: every "on for d" whose time is over by then must have switched back
                 for i_, (tc, d) in list(timed.items()):
-                    if tprev + e[1][0] >= tc + (d + 1) * 1000 + OP8:
+                    # TICK: the callback ran at tprev + dt.  ADV: the timers ran by themselves; C07's bound d + 100 ms (+ busy-waits of relay operations)
+                    if tprev + e[1][0] >= tc + (d + 1) * 1000 + OP8 + (100000 + OP8 if e[0] == 'ADV' else 0):
                         if level(i_) == 1:
                             v.append('NO-SWITCH-BACK relay gpio %d is still on %d us after "on for %d ms" (channel %d) although the countdown callback ran after the deadline' %
                                      (rel[i_][0], tprev + e[1][0] - tc, d, rel[i_][1]))
                         del timed[i_]
-            if e[0] in ('SETV', 'GRP') and registered:
-                ch = e[1][0] & 255
+            if req is not None and registered:
+                ch = req[0] & 255
                 if ch in chidx:
-                    i = chidx[ch]; want = 1 if e[1][1] == 1 else 0
+                    i = chidx[ch]; want = 1 if req[1] == 1 else 0
                     if level(i) != want:
-                        v.append('OUTPUT after the set-value request (channel %d, value %d) the relay gpio %d is at logical level %d' % (ch, e[1][1], rel[i][0], level(i)))
-                    sender = e[1][3] if e[0] == 'SETV' else 0
+                        v.append('OUTPUT after the set-value request (channel %d, value %d) was handled the relay gpio %d is at logical level %d' % (ch, req[1], rel[i][0], level(i)))
+                    sender = req[3]
                     # the handler alone (queue and buffer empty before it) issued more calls than the queue holds: only possible
                     # when it also sends a timer state, i.e. on a countdown-capable channel (timed command, or cancelling a running timer)
                     cls = 'BURST-SET' if (drops and bool(rel[i][3] & CD) and qprev == (0, 0)) else ('QUEUE-FULL' if drops else None)
@@ -241,7 +276,7 @@ class C06(F.PropCheck):
                         for r in rel: blame.setdefault(r[1], cls)
                 else:
                     # no such relay channel: the device still answers (Success = 0); not part of the statement, kept to stay in step
-                    sender = e[1][3] if e[0] == 'SETV' else 0
+                    sender = req[3]
                     expect_res.append((k, ch, sender & 0xFFFFFFFF if sender < 0 else sender, 0, 'QUEUE-FULL' if drops else None))
             elif drops:
                 for r in rel: blame.setdefault(r[1], 'QUEUE-FULL')
